@@ -335,8 +335,8 @@ func (r *c26run) RunSeq(sched *simrt.Source, keepLog bool) *simrt.Result {
 	for _, f := range r.files {
 		orig[f.Rel] = readState(f.Rel)
 	}
-	refOps := 0
-	simos.Install(&simos.Hooks{After: func(op *simos.Op) { refOps++ }})
+	refOps, refReads := 0, 0
+	simos.Install(&simos.Hooks{After: func(op *simos.Op) { refOps++ }, Read: func(kind, path string) error { refReads++; return nil }})
 	refCode, refPanic := r.invoke()
 	simos.Install(nil)
 	if refPanic != nil {
@@ -474,13 +474,32 @@ func (r *c26run) RunSeq(sched *simrt.Source, keepLog bool) *simrt.Result {
 			return
 		}
 	}
-	injectAt := 0
+	injectAt, injectReadAt, nread := 0, 0, 0
 	if r.inject && refOps > 0 {
 		injectAt = 1 + sched.Draw(refOps)
+		if refReads > 0 && sched.Chance(300) {
+			// instead: a READ-side call fails (the source cannot be read, the stat for
+			// its mode fails, a directory cannot be listed)
+			injectAt, injectReadAt = 0, 1+sched.Draw(refReads)
+		}
 	}
 	var lastDesc = "before the first operation"
 	judge(lastDesc)
 	simos.Install(&simos.Hooks{
+		Read: func(kind, path string) error {
+			nread++
+			if injectReadAt > 0 && nread == injectReadAt {
+				e := errnos[(r.errKind+1)%len(errnos)]
+				if e == syscall.ENOSPC {
+					e = syscall.EIO
+				}
+				res.Faults["read-error:"+kind+":"+e.Error()]++
+				logf("read %d %s %s: injected %v", nread, kind, norm(path), e)
+				mix("inject-read")
+				return e
+			}
+			return nil
+		},
 		Before: func(op *simos.Op) (error, int) {
 			if injectAt > 0 && op.Seq == injectAt && op.Kind != "close" {
 				e := errnos[r.errKind%len(errnos)]
@@ -529,7 +548,7 @@ func (r *c26run) RunSeq(sched *simrt.Source, keepLog bool) *simrt.Result {
 	mix(fmt.Sprintf("exit%d", code))
 	logf("exit code %d", code)
 	// --- after a successful run: permission bits ---------------------------------
-	if r.failure == nil && code == 0 && !r.mvgo && injectAt == 0 {
+	if r.failure == nil && code == 0 && !r.mvgo && injectAt == 0 && injectReadAt == 0 {
 		for _, f := range r.files {
 			st := readState(f.Rel)
 			if st.exists && st.data != orig[f.Rel].data && st.mode != orig[f.Rel].mode {
